@@ -24,7 +24,7 @@ class C19(Prop):
     trusted_base = BASE_TRUST + MODEL_TRUST + [
         'C19: native stack consumption per frame cannot be exhibited by the model; the pipeline (load, describe, size, serialize, copy, release) '
         'is run by the harness on deep inputs under ASan (stack-overflow detection) as a runtime check only']
-    rule = ('L in {1,2,3,8,64,2048} (harness rebuilt with CBOR_MAX_STACK_SIZE=L, model run with the same L) x nests of every container kind '
+    rule = ('L in {1,2,3,8,64,2048} and, implementation only with closed-form expectations, 70000 (harness rebuilt with CBOR_MAX_STACK_SIZE=L, model run with the same L) x nests of every container kind '
             '(tags, definite/indefinite arrays and maps in key and value position, chunked strings innermost, empty containers innermost) at depths '
             'L-1, L, L+1, 4L; non-trivial = depth >= L; distinct by (L, input, outcome)')
 
@@ -78,12 +78,43 @@ class C19(Prop):
                     fails.append({'input': l + ' (L=%d)' % L, 'expected': 'described ... marker=1', 'observed': o, 'why': 'cbor_describe of a tree nested within the limit did not print its innermost leaf'})
             if rc != 0: fails.append({'input': 'DESC (L=%d)' % L, 'expected': 'results', 'observed': 'implementation aborted', 'why': 'describe of a nested tree aborted'})
             ctx.bump('limit_%d' % L, len(bufs))
+        fails += self.big_limit(tier, ctx)
         return fails[:20]
+
+    BIG = 70000     # a limit above 2^16: counters narrower than size_t would wrap below it
+
+    def big_limit(self, tier, ctx, only=None):
+        """implementation only, closed-form expectation: nests of L-4465 .. L levels are decoded (and copied, serialized, described, released: the LOAD pipeline, on a 8 GiB stack),
+        L+1 levels are refused with MEMERROR just past the head that would open level L+1, nothing left allocated"""
+        L = self.BIG
+        hb = core.build_harness('asan', overrides={'CBOR_MAX_STACK_SIZE': str(L)})
+        if not hb['ok']:
+            return [{'input': 'build L=%d' % L, 'expected': 'harness builds', 'observed': hb['out'][-400:], 'why': 'cannot build with this limit'}]
+        kinds = ('arr', 'mapV') if tier != 'thorough' else ('tag', 'arr', 'arrI', 'mapK', 'mapV', 'mapI')
+        depths = (65536, L, L + 1) if tier != 'thorough' else (65535, 65536, 65537, L - 1, L, L + 1)
+        fails = []
+        for kind in kinds:
+            pre = {'tag': b'\xc1', 'arr': b'\x81', 'arrI': b'\x9f', 'mapK': b'\xa1', 'mapV': b'\xa1\x00', 'mapI': b'\xbf\x00'}[kind]
+            for d in depths:
+                b = nest(kind, d, b'\x00')
+                l = 'LOAD ' + gen.hexs(b) + ' 0 0 %d' % dec.HUGE
+                if only and only != l: continue
+                o, rc, err = core.run_lines(['prlimit', '--stack=8589934592', hb['exe']], [l], timeout=600)
+                got = o[0] if o else ''
+                ctx.count(l[:120] + ' (L=%d)' % L, got[-160:]); ctx.bump('limit_%d' % L)
+                if d <= L: ok = rc == 0 and got.startswith('OK ') and (' read=%d ' % len(b)) in got and ' ser==' in got and ' copy=ok' in got and got.endswith(' final=0')
+                else: ok = rc == 0 and got.startswith('ERR MEMERROR pos=%d ' % (L * len(pre) + 1)) and got.endswith(' live=0')
+                if not ok:
+                    fails.append({'input': l + ' (L=%d)' % L, 'expected': ('decoded, read=%d, copied, serialized back, released' % len(b)) if d <= L else 'ERR MEMERROR pos=%d ... live=0' % (L * len(pre) + 1),
+                                  'observed': (got[:60] + ' ... ' + got[-200:]) if got else 'implementation aborted rc=%d: %s' % (rc, err[-300:]),
+                                  'why': '%d levels of %s at a configured limit of %d' % (d, kind, L)})
+        return fails
 
     def replay(self, ctx, rp):
         import re
         l = rp['failure']['input']; m = re.search(r'\(L=(\d+)\)', l)
         L = int(m.group(1)) if m else 2048
+        if L == self.BIG: return self.big_limit('thorough', ctx, only=l.split(' (L=')[0])
         hb = core.build_harness('asan', overrides={'CBOR_MAX_STACK_SIZE': str(L)})
         w = l.split(); b = bytes.fromhex(w[1]) if w[1] != '-' else b''
         if w[0] == 'DESC':
